@@ -15,7 +15,7 @@ func (p *verifParser) Encode(header *parser.PacketHeader, v any) ([][]byte, erro
 	return [][]byte{{'x'}}, nil
 }
 func (p *verifParser) Add(data []byte, finish parser.Finish) error { return nil }
-func (p *verifParser) Reset()                                       {}
+func (p *verifParser) Reset()                                      {}
 
 var _ = reflect.TypeOf
 
@@ -27,9 +27,9 @@ type verifSock struct {
 	gone  bool
 }
 
-func (s *verifSock) ID() SocketID      { return s.id }
-func (s *verifSock) Join(room ...Room) { s.a.AddAll(s.id, room) }
-func (s *verifSock) Leave(room Room)   { s.a.Delete(s.id, room) }
+func (s *verifSock) ID() SocketID                           { return s.id }
+func (s *verifSock) Join(room ...Room)                      { s.a.AddAll(s.id, room) }
+func (s *verifSock) Leave(room Room)                        { s.a.Delete(s.id, room) }
 func (s *verifSock) Emit(eventName string, v ...any)        {}
 func (s *verifSock) To(room ...Room) *BroadcastOperator     { return nil }
 func (s *verifSock) In(room ...Room) *BroadcastOperator     { return nil }
